@@ -574,6 +574,9 @@ func ReadKeysAndCertElgAndEd25519(data []byte) (keysAndCert *KeysAndCert, remain
 	if err != nil {
 		return
 	}
+	if err = requireKeyTypes(keysAndCert.KeyCertificate, key_certificate.KEYCERT_CRYPTO_ELG, key_certificate.KEYCERT_SIGN_ED25519); err != nil {
+		return nil, nil, err
+	}
 
 	logElgEd25519Success(len(keysAndCert.Padding), len(remainder))
 	return
@@ -685,6 +688,9 @@ func ReadKeysAndCertX25519AndEd25519(data []byte) (keysAndCert *KeysAndCert, rem
 	if err != nil {
 		return
 	}
+	if err = requireKeyTypes(keysAndCert.KeyCertificate, key_certificate.KEYCERT_CRYPTO_X25519, key_certificate.KEYCERT_SIGN_ED25519); err != nil {
+		return nil, nil, err
+	}
 
 	log.WithFields(logger.Fields{
 		"public_key_type":         "X25519",
@@ -693,6 +699,19 @@ func ReadKeysAndCertX25519AndEd25519(data []byte) (keysAndCert *KeysAndCert, rem
 		"remainder_length":        len(remainder),
 	}).Debug("Successfully read X25519+Ed25519 KeysAndCert")
 	return
+}
+
+// requireKeyTypes rejects a key certificate that does not declare the key types a
+// key-type-specific reader assumes; the keys were sliced out of the key block with
+// those types' sizes, so any other declaration would serialise to different bytes.
+func requireKeyTypes(keyCert *key_certificate.KeyCertificate, cryptoType, signingType int) error {
+	if keyCert.PublicKeyType() != cryptoType || keyCert.SigningPublicKeyType() != signingType {
+		return oops.Errorf(
+			"key certificate declares key types (crypto=%d, signing=%d), expected (crypto=%d, signing=%d)",
+			keyCert.PublicKeyType(), keyCert.SigningPublicKeyType(), cryptoType, signingType,
+		)
+	}
+	return nil
 }
 
 // GenerateCompressiblePadding generates padding that is compressible per I2P Proposal 161.
